@@ -143,7 +143,11 @@ class Folder:
             return
         if isinstance(st, ast.AugAssign):
             cur = self.expr(ast.copy_location(_load(st.target), st), env)
-            self.assign(st.target, BINOPS[type(st.op)](cur, self.expr(st.value, env)), env); return
+            rhs = self.expr(st.value, env)
+            if isinstance(st.op, ast.Add) and isinstance(cur, list):
+                cur = list(cur); cur.extend(rhs)          # list += iterable extends (a tuple on the right is fine); rebound to a fresh list here
+                self.assign(st.target, cur, env); return
+            self.assign(st.target, BINOPS[type(st.op)](cur, rhs), env); return
         if isinstance(st, ast.FunctionDef):
             env[st.name] = FuncConst(st, env); return
         if isinstance(st, ast.ClassDef):
